@@ -4,6 +4,7 @@ package astits
 // 188-byte TS packets by an independent packetiser; the expected deliveries are derived from the unit list alone.
 
 type sUnit struct {
+	afPriv  []byte // transport private data carried in the adaptation field of the unit's first packet
 	pid     uint16
 	kind    int // 0 PES, 1 PAT, 2 PMT, 3 other PSI (SDT PID)
 	bytes   []byte // the unit's payload bytes as carried in TS payloads (PSI: pointer_field + filler + sections)
@@ -47,6 +48,22 @@ func mkPESPattern(pid uint16, plen int, bounded bool, seed int) *sUnit {
 	return &sUnit{pid: pid, kind: 0, pes: m, bytes: refEncodePES(m, uint16(pl))}
 }
 
+// mkPESRich: a PES unit whose optional header carries 16 bytes of PES private data and whose first packet carries
+// transport private data in its adaptation field (both recognisable patterns)
+func mkPESRich(pid uint16, plen int, seed int) *sUnit {
+	u := mkPESPattern(pid, plen, true, seed)
+	o := u.pes.opt
+	o.hasExt = true
+	o.ext.hasPriv = true
+	o.ext.priv = make([]byte, 16)
+	for k := range o.ext.priv {
+		o.ext.priv[k] = 0x90 | byte(k)
+	}
+	u.bytes = refEncodePES(u.pes, uint16(refPESHeaderLen(u.pes)-6+plen))
+	u.afPriv = []byte{0xB0 | byte(seed), 0xB1, 0xB2, 0xB3}
+	return u
+}
+
 // mkPSI: a PSI unit: pointer_field ptr (filler bytes symbolic), the given sections, trailing 0xFF bytes
 func mkPSI(pid uint16, kind int, secs []*mSection, ptr, trailing int) *sUnit {
 	b := []byte{byte(ptr)}
@@ -70,7 +87,8 @@ func mkPAT(pmtPID uint16) *mSection {
 
 func mkPMT(esPID uint16) *mSection {
 	s := &mSection{tableID: 2, ssi: true, ext: 1, version: vBits8(5), cni: true}
-	s.pmt = &PMTData{ProgramNumber: 1, PCRPID: esPID, ElementaryStreams: []*PMTElementaryStream{{StreamType: StreamTypeH264Video, ElementaryPID: esPID}}}
+	s.pmt = &PMTData{ProgramNumber: 1, PCRPID: esPID, ElementaryStreams: []*PMTElementaryStream{{StreamType: StreamTypeH264Video, ElementaryPID: esPID,
+		ElementaryStreamDescriptors: []*Descriptor{{Tag: 0x90, Length: 3, UserDefined: []byte{0xD1, 0xD2, 0xD3}}}}}}
 	return s
 }
 
@@ -101,10 +119,22 @@ func packetize(u *sUnit, cc0 uint8, first int, padFF bool) [][]byte {
 			n = len(rest)
 		}
 		m := &mPacket{pusi: k == 0, pid: u.pid, hasPayload: true, cc: cc & 0xf}
+		if k == 0 && len(u.afPriv) > 0 {
+			// first packet carries an adaptation field with private data: it takes 3+len bytes of the packet
+			m.hasAF = true
+			m.af.hasPriv = true
+			m.af.priv = u.afPriv
+			if max := 184 - 3 - len(u.afPriv); n > max {
+				n = max
+			}
+		}
 		chunk := rest[:n]
 		rest = rest[n:]
 		room := 184 - n
-		if room > 0 && padFF && len(rest) == 0 {
+		if k == 0 && len(u.afPriv) > 0 {
+			m.payload = chunk
+			m.af.stuffing = room - 3 - len(u.afPriv)
+		} else if room > 0 && padFF && len(rest) == 0 {
 			pl := append([]byte{}, chunk...)
 			for i := 0; i < room; i++ {
 				pl = append(pl, 0xff)
@@ -213,6 +243,12 @@ func checkUnit(u *sUnit, ds []*DemuxerData) int {
 		vassert("C02.pes.payload", vBytesEq(d.PES.Data, u.pes.payload))
 		vassert("C02.pes.header", d.PES.Header.StreamID == u.pes.streamID && d.PES.Header.OptionalHeader != nil &&
 			d.PES.Header.OptionalHeader.PTS != nil && d.PES.Header.OptionalHeader.PTS.Base == int64(u.pes.opt.pts))
+		if len(u.afPriv) > 0 {
+			vassert("C02.pes.afpriv", d.FirstPacket.AdaptationField != nil && vBytesEq(d.FirstPacket.AdaptationField.TransportPrivateData, u.afPriv))
+		}
+		if u.pes.opt.hasExt && u.pes.opt.ext.hasPriv {
+			vassert("C02.pes.hdrpriv", vBytesEq(d.PES.Header.OptionalHeader.PrivateData, u.pes.opt.ext.priv))
+		}
 		vassert("C02.pes.firstpacket", d.FirstPacket != nil && d.FirstPacket.Header.PID == u.pid && d.FirstPacket.Header.PayloadUnitStartIndicator &&
 			d.FirstPacket.Header.ContinuityCounter == u.cc0&0xf)
 		return 1
